@@ -3324,6 +3324,9 @@ def auto_chunks(chunks, shape, limit, dtype, previous_chunks=None):
     largest_block = math.prod(
         cs if isinstance(cs, Number) else max(cs) for cs in chunks if cs != "auto"
     )
+    # a fixed dimension of size 0 makes the array empty: any chunking of the
+    # automatic dimensions fits the limit, but 0 must not be used as a divisor
+    largest_block = max(largest_block, 1)
 
     if previous_chunks:
         # Base ideal ratio on the median chunk size of the previous chunks
